@@ -25,9 +25,11 @@ inductive Kind where
 deriving DecidableEq, Repr
 
 /-- multiplicity of a `go` statement on the path from the entry of its role: executed exactly once; under a condition;
-    once per iteration of a loop `0 ≤ i < Workers`; in some other loop; anything else -/
+    once per iteration of a loop that runs exactly `Workers` times (counting up or down, or ranging over the count); in
+    some other loop; anything else; `unclassified` = in a loop whose header reads the Workers field in a way the extractor
+    does not recognise — no statement is made about such a loop (it is listed in the evidence) -/
 inductive Mult where
-  | once | cond | perWorker | loop | other
+  | once | cond | perWorker | loop | other | unclassified
 deriving DecidableEq, Repr
 
 /-- capacity of a `make(chan …, e)`: `e = ncpu·runtime.NumCPU() + workers·q.workers + const`; `known = false` if `e` is
